@@ -383,6 +383,44 @@ def render_zero_clauses(idx, recv, partial):
 """
 
 
+def render_byref_then_byvalue(idx):
+    """A by-reference delegation (which caches a helper) followed by a by-value delegation on the
+    same original: the instance itself travels through the by-value default body."""
+    return """    #[unimock(api=Mk)]
+    pub trait Tr: Sized {
+        fn r0(&self, x: u8) -> u64;
+        fn rv(self, x: u8) -> u64;
+        fn p(&self, x: u8) -> u64 {
+            self.r0(x) + 1
+        }
+        fn pv(self, x: u8) -> u64 {
+            let a = self.r0(x);
+            a + self.rv(x)
+        }
+    }
+    pub fn run() -> Result<(), String> {
+        for prior in [false, true] {
+            let u = Unimock::new((
+                Mk::r0.each_call(matching!(_)).returns(10u64),
+                Mk::rv.each_call(matching!(_)).returns(20u64),
+            ));
+            if prior {
+                let got = vh::obs::catch(|| u.p(1));
+                if got != Ok(11) {
+                    return Err(format!("by-reference provided method gave {got:?}, expected 11"));
+                }
+            }
+            // the original is consumed by the call and verified when the default body lets go of it
+            let got = vh::obs::catch(move || u.pv(2));
+            if got != Ok(30) {
+                return Err(format!("by-value provided method {} gave {got:?}, its default body over the mock gives 30", if prior { "after a by-reference delegation" } else { "alone" }));
+            }
+        }
+        Ok(())
+    }
+"""
+
+
 def render_after_failure(idx, recv):
     """A recorded failure does not stop later delegation: the temporary clones that Pin / Rc / Arc /
     by-value delegation creates go away quietly, the body runs, the verdict carries the one error."""
@@ -457,6 +495,7 @@ def run(pid, tier, replay, start):
         for partial in (False, True):
             insts.append(Instance(len(insts), f"zero-clauses/{recv}/{'partial' if partial else 'strict'}", render_zero_clauses(len(insts), recv, partial), {"body": 1, "recv": recv}))
         insts.append(Instance(len(insts), f"delegation-after-a-recorded-failure/{recv}", render_after_failure(len(insts), recv), {"body": 1, "recv": recv}))
+    insts.append(Instance(len(insts), "by-reference-then-by-value-delegation", render_byref_then_byvalue(len(insts)), {"body": 1, "recv": "own"}))
     for variant in ("nested", "lent-handle"):
         insts.append(Instance(len(insts), f"delegation-in-delegation/{variant}", render_nested(len(insts), variant), {"body": 1, "recv": "ref"}))
     if replay:
